@@ -353,6 +353,21 @@ func c12OracleStep(i int, op *eng.Op, so eng.StepObs, reqs []sim.Req, prev []eng
 		q := reqs[firstMut]
 		add("C12:manifest-touched-before-pre-hooks-completed", fmt.Sprintf("%s %s was sent before the last %s hook request", q.Method, q.Key, ev[0]))
 	}
+	// a failure between the two events that is not a hook's: the readiness wait failed or a request on a manifest
+	// resource was rejected, and the operation reports the error.  The post-event hooks do not run then; whatever
+	// follows on hook resources belongs to the automatic recovery of an atomic operation.
+	manifestFailed := op.WaitFail && countCalls(so.Trace, "wait") > 0
+	for _, q := range reqs {
+		if q.Code == 403 && !isHookKeyName(q.Key) {
+			manifestFailed = true
+		}
+	}
+	if so.Outcome != "ok" && manifestFailed {
+		if !recovery && w.pos < len(w.reqs) {
+			add("C12:hook-run-after-failure", "the operation failed before its "+ev[1]+" hooks, yet: "+w.show())
+		}
+		return
+	}
 	if so.Outcome != "ok" && w.pos >= len(w.reqs) {
 		return // the operation failed between the two events (no hook involved)
 	}
